@@ -13,6 +13,7 @@ import Vipnode.Drv.Rpc
 import Vipnode.Drv.Persist
 import Vipnode.Drv.Conc
 import Vipnode.Drv.NonceTtl
+import Vipnode.Drv.PoolBin
 open Vipnode Vipnode.Drv
 
 structure DState where
@@ -23,6 +24,7 @@ structure DState where
   life : Life := {}
   rpc : Rpc := {}
   persist : PersistDrv := {}
+  poolbin : Pool := {}
 
 def stepLine (st : DState) (line : String) : DState × String :=
   let toks := (line.trimAscii.toString.splitOn " ").filter (· ≠ "")
@@ -40,6 +42,7 @@ def stepLine (st : DState) (line : String) : DState × String :=
   | "fuzz" :: args => (st, fuzzStep args)
   | "conc" :: args => (st, concStep args)
   | "noncettl" :: args => (st, nonceTtlStep args)
+  | "poolbin" :: args => let (s, o) := poolBinStep st.poolbin args; ({ st with poolbin := s }, o)
   | "persist" :: args => let (s, o) := persistStep st.persist args; ({ st with persist := s }, o)
   | "rpc" :: args => let (s, o) := rpcStep st.rpc args; ({ st with rpc := s }, o)
   | "agentlife" :: args => let (s, o) := lifeDrvStep st.life args; ({ st with life := s }, o)
